@@ -3,8 +3,10 @@
      template<> size_t itoa<unsigned int>(unsigned int value, char *result, int base)
      template<typename T> T fast_atoi(const char *str, const char term = '\0')
                                                      (T = int, unsigned, unsigned short)
-   Transcribed statement by statement, defects included (fast_atoi has no sign handling: the
-   '-' is consumed as the "digit" 45 - 48 = -3).  No proofs in this file.
+   as of commit a8219b1 (fast_atoi honours a leading '-' for signed T and accumulates
+   retval * 10 +/- ( *str - '0' )); the routine as it was before that repair is kept at the end
+   of the file as fast_atoi_orig / fast_atoi_checked_orig, for the refutation witnesses only.
+   Transcribed statement by statement.  No proofs in this file.
    Text is a list of bytes 0..255 (as Z); the terminating NUL of a C string is implicit. *)
 From Coq Require Import ZArith List Bool.
 Import ListNotations.
@@ -69,94 +71,118 @@ Definition W32 : Z := 4294967296.
 Definition W31 : Z := 2147483648.
 Definition W16 : Z := 65536.
 
-(* two's complement reinterpretation of the low 32 bits *)
-Definition sint32 (x : Z) : Z := let y := x mod W32 in if y <? W31 then y else y - W32.
-
 (* (int)*str with char signed *)
 Definition schar (b : Z) : Z := if b <? 128 then b else b - 256.
 
 Inductive ity := T_int | T_uint | T_ushort.
 
-(* retval = (retval << 3) + (retval << 1) + *str - '0';
-   int: computed in int, wrapping (two's complement; formally UB for negative retval or on
-        overflow -- the harness is compiled with -fwrapv);
-   unsigned: all operands converted to unsigned, arithmetic mod 2^32;
-   unsigned short: promoted to int (no overflow possible: retval <= 65535), the assignment
-        converts back mod 2^16. *)
-Definition atoi_step (ty : ity) (retval c : Z) : Z :=
-  let raw := Z.shiftl retval 3 + Z.shiftl retval 1 + schar c - 48 in
-  match ty with
-  | T_int => sint32 raw
-  | T_uint => raw mod W32
-  | T_ushort => raw mod W16
-  end.
-
-(* for (; *str != term; ++str) ...
-   [] is the terminating NUL: with term = 0 the loop ends there; with another terminator that
-   does not occur in the string the loop runs past the end of the string (None). *)
-Fixpoint fast_atoi_from (ty : ity) (term : Z) (str : list Z) (retval : Z) : option Z :=
-  match str with
-  | [] => if term =? 0 then Some retval else None
-  | c :: rest => if c =? term then Some retval
-                 else fast_atoi_from ty term rest (atoi_step ty retval c)
-  end.
-
-Definition fast_atoi (ty : ity) (term : Z) (str : list Z) : option Z :=
-  fast_atoi_from ty term str 0.
-
-(* Field<int>::print followed by the Field<int>(const char * ) constructor *)
-Definition int_roundtrip (v : Z) : option (list Z * Z) :=
-  match itoa_int v 10 with
-  | None => None
-  | Some t => match fast_atoi T_int 0 t with None => None | Some r => Some (t, r) end
-  end.
-
-Definition uint_roundtrip (v : Z) : option (list Z * Z) :=
-  match itoa_uint v 10 with
-  | None => None
-  | Some t => match fast_atoi T_uint 0 t with None => None | Some r => Some (t, r) end
-  end.
-
-(* ------------------------------------------------- fast_atoi<int> with the C++ rules checked *)
-(* The same loop for T = int, but every int operation is checked in evaluation order
-     ((retval << 3) + (retval << 1)) + *str) - '0'
-   instead of being wrapped: this is what the build WITHOUT -fwrapv / with UBSan observes.
-   (A left shift of a non-negative value is flagged here as soon as the result leaves int; C++11
-   tolerates results up to 2^32-1 -- never reached on the canonical text of an int32.) *)
-Inductive atoi_checked :=
-  | AC_ok (v : Z)
-  | AC_shift_negative          (* left shift of a negative value *)
-  | AC_shift_overflow
-  | AC_overflow.               (* signed integer overflow in + or - *)
+(* Outcome of a parse.  For T = int every int operation is checked in evaluation order (this is
+   what the fully sanitized build observes): leaving [INT_MIN, INT_MAX] is undefined behaviour. *)
+Inductive atoi_result :=
+  | AR_ok (v : Z)
+  | AR_overflow               (* signed integer overflow in retval * 10 or in the +/- that follows *)
+  | AR_oob.                   (* a terminator other than NUL that does not occur: the loop runs off the string *)
 
 Definition in_int (x : Z) : bool := (- W31 <=? x) && (x <? W31).
 
-Definition atoi_step_checked (retval c : Z) : atoi_checked :=
+(* T = int:  retval = retval * 10 + ( *str - '0' )   resp.   retval * 10 - ( *str - '0' ) *)
+Definition int_step (down : bool) (retval c : Z) : atoi_result :=
+  let a := retval * 10 in
+  if negb (in_int a) then AR_overflow
+  else
+    let b := schar c - 48 in                       (* char promoted to int: no overflow *)
+    let r := if down then a - b else a + b in
+    if negb (in_int r) then AR_overflow else AR_ok r.
+
+(* T = unsigned: retval * 10 is unsigned, ( *str - '0' ) is converted to unsigned: mod 2^32;
+   T = unsigned short: computed in int (retval <= 65535: no overflow), stored mod 2^16 *)
+Definition uns_step (ty : ity) (retval c : Z) : atoi_result :=
+  let raw := retval * 10 + (schar c - 48) in
+  match ty with
+  | T_ushort => AR_ok (raw mod W16)
+  | _ => AR_ok (raw mod W32)
+  end.
+
+(* for (; *str != term; ++str) retval = step(retval, *str);
+   [] is the terminating NUL of the C string *)
+Fixpoint atoi_loop (step : Z -> Z -> atoi_result) (term : Z) (str : list Z) (retval : Z) : atoi_result :=
+  match str with
+  | [] => if term =? 0 then AR_ok retval else AR_oob
+  | c :: rest => if c =? term then AR_ok retval
+                 else match step retval c with
+                      | AR_ok r => atoi_loop step term rest r
+                      | e => e
+                      end
+  end.
+
+(* if (std::is_signed<T>::value && *str == '-') { for (++str; ...) retval = retval * 10 - ...; }
+   else for (; ...) retval = retval * 10 + ...; *)
+Definition fast_atoi (ty : ity) (term : Z) (str : list Z) : atoi_result :=
+  match ty with
+  | T_int =>
+    match str with
+    | c :: rest => if c =? 45 then atoi_loop (int_step true) term rest 0
+                   else atoi_loop (int_step false) term str 0
+    | [] => atoi_loop (int_step false) term [] 0
+    end
+  | _ => atoi_loop (uns_step ty) term str 0
+  end.
+
+(* Field<int>::print followed by the Field<int>(const char * ) constructor *)
+Definition int_roundtrip (v : Z) : option (list Z * atoi_result) :=
+  match itoa_int v 10 with
+  | None => None
+  | Some t => Some (t, fast_atoi T_int 0 t)
+  end.
+
+Definition uint_roundtrip (v : Z) : option (list Z * atoi_result) :=
+  match itoa_uint v 10 with
+  | None => None
+  | Some t => Some (t, fast_atoi T_uint 0 t)
+  end.
+
+(* ------------------------------------------------ the routine BEFORE the repair (a8219b1^) *)
+(* retval = (retval << 3) + (retval << 1) + *str - '0';  no sign handling.  Kept only for the
+   refutation witnesses c08_atoi_neg_orig_refuted / c08_atoi_top_overflow_orig_refuted. *)
+
+Definition sint32 (x : Z) : Z := let y := x mod W32 in if y <? W31 then y else y - W32.
+
+(* two's complement result (what the hardware produced) *)
+Definition atoi_step_orig (retval c : Z) : Z :=
+  sint32 (Z.shiftl retval 3 + Z.shiftl retval 1 + schar c - 48).
+
+Fixpoint fast_atoi_orig_from (str : list Z) (retval : Z) : Z :=
+  match str with
+  | [] => retval
+  | c :: rest => if c =? 0 then retval else fast_atoi_orig_from rest (atoi_step_orig retval c)
+  end.
+Definition fast_atoi_orig (str : list Z) : Z := fast_atoi_orig_from str 0.
+
+(* the same with the C++ rules checked: ((retval << 3) + (retval << 1) + *str) - '0' *)
+Inductive atoi_checked_orig :=
+  | AC_ok (v : Z)
+  | AC_shift_negative          (* left shift of a negative value *)
+  | AC_overflow.               (* signed integer overflow *)
+
+Definition atoi_step_checked_orig (retval c : Z) : atoi_checked_orig :=
   if retval <? 0 then AC_shift_negative
   else
     let a := Z.shiftl retval 3 in
     let b := Z.shiftl retval 1 in
-    if negb (in_int a && in_int b) then AC_shift_overflow
+    if negb (in_int a && in_int b) then AC_overflow
     else if negb (in_int (a + b)) then AC_overflow
     else if negb (in_int (a + b + schar c)) then AC_overflow
     else if negb (in_int (a + b + schar c - 48)) then AC_overflow
     else AC_ok (a + b + schar c - 48).
 
-Fixpoint fast_atoi_checked_from (str : list Z) (retval : Z) : atoi_checked :=
+Fixpoint fast_atoi_checked_orig_from (str : list Z) (retval : Z) : atoi_checked_orig :=
   match str with
   | [] => AC_ok retval
   | c :: rest => if c =? 0 then AC_ok retval
-                 else match atoi_step_checked retval c with
-                      | AC_ok r => fast_atoi_checked_from rest r
+                 else match atoi_step_checked_orig retval c with
+                      | AC_ok r => fast_atoi_checked_orig_from rest r
                       | e => e
                       end
   end.
-
-Definition fast_atoi_checked (str : list Z) : atoi_checked := fast_atoi_checked_from str 0.
-
-(* itoa<int> then fast_atoi<int> under the checked rules *)
-Definition int_roundtrip_checked (v : Z) : option (list Z * atoi_checked) :=
-  match itoa_int v 10 with
-  | None => None
-  | Some t => Some (t, fast_atoi_checked t)
-  end.
+Definition fast_atoi_checked_orig (str : list Z) : atoi_checked_orig :=
+  fast_atoi_checked_orig_from str 0.
